@@ -286,9 +286,9 @@ type built struct {
 	payload, header, checksum, uncovered []span
 }
 
-var payloadClasses = []string{"empty", "incompressible", "compressible", "big"}
+var payloadClasses = []string{"empty", "incompressible", "compressible", "big", "flat"}
 
-func payloadOf(p, i int) string { return payloadClasses[(p+i-2)%4] } // i is 1-based, as in Container.tla
+func payloadOf(p, i int) string { return payloadClasses[(p+i-2)%len(payloadClasses)] } // i is 1-based, as in Container.tla
 
 func makePayload(rng *rand.Rand, class string) []byte {
 	switch class {
@@ -304,6 +304,14 @@ func makePayload(rng *rand.Rand, class string) []byte {
 		b := make([]byte, n)
 		for i := range b {
 			b[i] = pat[i%len(pat)]
+		}
+		return b
+	case "flat": // more than 64 KiB of one byte: inflates to several hundred times the size it is stored in
+		n := 70000 + rng.Intn(200000)
+		b := make([]byte, n)
+		c := byte(rng.Intn(3)) * 0x41
+		for i := range b {
+			b[i] = c
 		}
 		return b
 	default: // big: more than 64 KiB, half random half flat
@@ -528,6 +536,8 @@ func buildPNG(rng *rand.Rand, p int, method string, opt []string) built {
 		wd, ht = 40+rng.Intn(20), 30
 	case "big":
 		wd, ht = 300, 120+rng.Intn(20) // > 64 KiB of raw samples for rgb and wider
+	case "flat":
+		wd, ht = 400, 200 // a calm picture: the IDAT stream inflates to several hundred times its size
 	}
 	noisy := payloadClasses[p-1] == "incompressible" || payloadClasses[p-1] == "big"
 	r := image.Rect(0, 0, wd, ht)
@@ -604,7 +614,7 @@ func buildPNG(rng *rand.Rand, p int, method string, opt []string) built {
 	data := buf.Bytes()
 	ztxt := []byte{}
 	if has(opt, "ztxt") { // a zlib stream inside the png: keyword 0 method zlib(text), crc by hash/crc32
-		ztxt = makePayload(rng, payloadClasses[p%4])
+		ztxt = makePayload(rng, payloadClasses[p%len(payloadClasses)])
 		for i := range ztxt { // text chunk: keep it printable latin-1
 			ztxt[i] = 32 + ztxt[i]%90
 		}
@@ -666,7 +676,7 @@ func buildGIF(rng *rand.Rand, n, p int, method string) built {
 		wd, ht = 13+rng.Intn(20), 7+rng.Intn(20)
 	case "compressible":
 		wd, ht = 64, 48
-	case "big":
+	case "big", "flat":
 		wd, ht = 320, 210
 	}
 	ncol := 2
@@ -686,7 +696,9 @@ func buildGIF(rng *rand.Rand, n, p int, method string) built {
 		}
 		m := image.NewPaletted(image.Rect(fx, fy, fx+fw, fy+fh), pal)
 		for k := range m.Pix {
-			if payloadClasses[p-1] == "compressible" {
+			if payloadClasses[p-1] == "flat" {
+				m.Pix[k] = uint8(i % ncol)
+			} else if payloadClasses[p-1] == "compressible" {
 				m.Pix[k] = uint8((k / 16) % ncol)
 			} else {
 				m.Pix[k] = uint8(rng.Intn(ncol))
